@@ -13,8 +13,8 @@ const whyRing = "a ring walk that leaves on cursor != start visits one node: are
 func init() {
 	register(&propDef{
 		id: "C01",
-		explanation: "Decides structural clauses of C01: (table) the predicate deciding whether a closed edge bounds the solution (isContributingClosed) equals, on every cell of the code-derived partition of (fillRule, clipType, polytype, windCount, windCount2), the set-theoretic table the property states; (open-guard) the boundary test of intersectEdges' open branch is the same own-set test; (ring) every ring walk over OutPt/OutPt2/Vertex lists leaves on cursor==start, i.e. visits the whole ring; (order) the sort comparators implement the sweep order (minima bottom-up, intersections bottom-up then left to right); (mirror) intersectEdges decides and updates winding state under Negative exactly as under Positive on the negated state; (table2) two crossing same-set boundary edges start a polygon exactly where the boolean table has a boundary; (grow/split) records split off during clean-up are visited, and a ring split by a horizontal join is relabelled before ownership of the entry point is tested; (live) no call to a sweep/repair mechanism sits in a constant-dead block. Does NOT decide the sweep's geometry: edge ordering, intersection rounding, winding update arithmetic, join/split topology.",
-		notDecided: []string{"active-edge ordering (isValidAelOrder)", "intersection detection and rounding", "winding-count update arithmetic in intersectEdges/setWindCountForClosedPathEdge", "horizontal processing, joins and splits", "doSplitOp's area condition (no in-repo oracle)"},
+		explanation: "Decides structural clauses of C01: (table) the predicate deciding whether a closed edge bounds the solution (isContributingClosed) equals, on every cell of the code-derived partition of (fillRule, clipType, polytype, windCount, windCount2), the set-theoretic table the property states; (open-guard) the boundary test of intersectEdges' open branch is the same own-set test; (ring) every ring walk over OutPt/OutPt2/Vertex lists leaves on cursor==start, i.e. visits the whole ring; (order) the sort comparators implement the sweep order (minima bottom-up, intersections bottom-up then left to right); (mirror) intersectEdges decides and updates winding state under Negative exactly as under Positive on the negated state; (table2) two crossing same-set boundary edges start a polygon exactly where the boolean table has a boundary; (grow/split) records split off during clean-up are visited, and a ring split by a horizontal join is relabelled before ownership of the entry point is tested; (live) no call to a sweep/repair mechanism sits in a constant-dead block. Also: (wind) the winding-count representation (windCount = larger-magnitude winding of the two regions an edge separates, R - L = windDx, windCount2 = the other set's winding there) is preserved by setWindCountForClosedPathEdge and by both crossing cases of intersectEdges on every cell of a first-principles region model; (ael.join) a new left bound is never spliced in after the left half of a joined pair; (join.advance) an edge that moves to its next segment is tested for a join on every exit; (merged-owner) a record emptied by a merge gets an owner in flat mode too; (horz-roles) duplicateOp's flag is true exactly for the left-to-right segment of a horizontal join; (area-sign) every signed-area function uses the same (previous minus current) shoelace convention. Does NOT decide the sweep's geometry: edge ordering, intersection rounding, winding update arithmetic, join/split topology.",
+		notDecided: []string{"active-edge ordering (isValidAelOrder)", "intersection detection and rounding", "horizontal processing, joins and splits", "doSplitOp's area condition (no in-repo oracle)"},
 		rules: []func(*Ctx){
 			ruleAelJoinSplice("C01.ael.join"),
 			ruleHorzJoinRoles("C01.horz-roles"),
@@ -35,7 +35,7 @@ func init() {
 	})
 	register(&propDef{
 		id: "C09",
-		explanation: "Decides structural clauses of C09: (table) isContributingOpen equals the property's coverage table (Intersection: inside clip; Union: outside both; Difference: outside clip) on every cell of (fillRule, clipType, windCount, windCount2); (guard) an open edge is cut at a closed edge exactly when that edge bounds its own set; (skip) winding scans neither count nor are changed by open edges; (route) open records reach only the open solution; (horz) an open path's terminal horizontal consults the range test before intersecting a further edge. Does NOT decide cut positions or that pieces are sub-polylines.",
+		explanation: "Decides structural clauses of C09: (table) isContributingOpen equals the property's coverage table (Intersection: inside clip; Union: outside both; Difference: outside clip) on every cell of (fillRule, clipType, windCount, windCount2); (guard) an open edge is cut at a closed edge exactly when that edge bounds its own set; (skip) winding scans neither count nor are changed by open edges; (route) open records reach only the open solution; (horz) an open path's terminal horizontal consults the range test before intersecting a further edge. Also: (skip/search) the search for the nearest closed edge of the same set passes over open edges; (prev-hot) getPrevHotEdge returns only an edge it found hot and not open; (scratch) each open piece is built in a new variable (typestate). Does NOT decide cut positions or that pieces are sub-polylines.",
 		notDecided: []string{"cut positions (intersection rounding)", "sub-polyline-ness of the pieces", "horizontal open edges in doHorizontal", "Xor for open paths (the property does not constrain it)"},
 		rules: []func(*Ctx){
 			rulePrevHotEdge("C09.prev-hot"),
@@ -108,8 +108,8 @@ var exactPredicates = []string{"CrossProduct", "isCollinear", "productsAreEqual"
 func init() {
 	register(&propDef{
 		id: "C14",
-		explanation: "Decides structural clauses of C14 at |coord| <= 2^29: (sign) triSign is the sign function on every cell {x<0, 0, 1, x>1}; (exact) no int64 +,-,* in the measure/predicate functions can exceed 63 bits and no float operation in them combines integer-derived operands beyond the 53-bit mantissa, so the sign/zero tests of the cross product are exact; (limb) the 128-bit helpers compute what they say on every path (polynomial identities over split words: mulInt64 = a*b, add/sub modulo 2^128, toFloat64 = lo + 2^64*hi with the negation carry, isZero, multiplyUInt64 = a*b, productsAreEqual compares both words of exact products); (bounds) the bounds accumulators start at the correct extreme, each bound is a min/max over its own axis and the four updates are independent; (pos) IsPositive64 is Area64 >= 0 and AreaPaths64 sums Area64. Does NOT decide the crossing-number walk of PointInPolygon or float64 rounding inside toFloat64.",
-		notDecided: []string{"PointInPolygon's crossing-number walk (start-index wrap, IsOn cases)", "the two float64 roundings inside int128.toFloat64", "Area64's final halving in float64"},
+		explanation: "Decides structural clauses of C14 at |coord| <= 2^29: (sign) triSign is the sign function on every cell {x<0, 0, 1, x>1}; (exact) no int64 +,-,* in the measure/predicate functions can exceed 63 bits and no float operation in them combines integer-derived operands beyond the 53-bit mantissa, so the sign/zero tests of the cross product are exact; (limb) the 128-bit helpers compute what they say on every path (polynomial identities over split words: mulInt64 = a*b, add/sub modulo 2^128, toFloat64 = lo + 2^64*hi with the negation carry, isZero, multiplyUInt64 = a*b, productsAreEqual compares both words of exact products); (bounds) the bounds accumulators start at the correct extreme, each bound is a min/max over its own axis and the four updates are independent; (pos) IsPositive64 is Area64 >= 0 and AreaPaths64 sums Area64. Also: (wrap) PointInPolygon's predecessor of vertex 0 is the last vertex (two sites); (area-sign) the shoelace convention of Area64/AreaD/areaOP/areaTriangle; (limb) isCollinear's shortcuts and word comparisons as polynomial facts. Does NOT decide the crossing-number walk of PointInPolygon or float64 rounding inside toFloat64.",
+		notDecided: []string{"PointInPolygon's crossing-number walk apart from the wrap-around predecessor (IsOn cases, the start index)", "the two float64 roundings inside int128.toFloat64", "Area64's final halving in float64"},
 		rules: []func(*Ctx){
 			ruleTriSign("C14.sign"),
 			ruleWidth("C14.exact.int", 29, exactPredicates, 10, "at |coord| <= 2^29 every difference has 30 bits and every product 60: anything wider means a wrapped or truncated intermediate, i.e. a wrong sign for some triple"),
@@ -127,20 +127,20 @@ func init() {
 func init() {
 	register(&propDef{
 		id: "C02",
-		explanation: "Decides structural clauses of C02: (emit) every closed path reaches a solution only through cleanCollinear -> buildPath(pts, c.reverseSolution, false, &path) -> append guarded by buildPath()==true, in the flat and in the tree pipeline alike; (buildPath) buildPath refuses rings of fewer than 3 nodes before writing and never appends a point equal to the last appended one; (reverse) every buildPath call site passes the engine's reverseSolution option, and the offsetter derives it as ReverseSolution != pathsReversed. Does NOT decide winding 0/1 of the whole solution, hole orientation or idempotence of re-union.",
+		explanation: "Decides structural clauses of C02: (emit) every closed path reaches a solution only through cleanCollinear -> buildPath(pts, c.reverseSolution, false, &path) -> append guarded by buildPath()==true, in the flat and in the tree pipeline alike; (buildPath) buildPath refuses rings of fewer than 3 nodes before writing and never appends a point equal to the last appended one; (reverse) every buildPath call site passes the engine's reverseSolution option, and the offsetter derives it as ReverseSolution != pathsReversed. Also: (split.dedupe) doSplitOp creates a vertex for the intersection point only after comparing it with the two nodes it is linked between; (horz-roles) as in C01. Does NOT decide winding 0/1 of the whole solution, hole orientation or idempotence of re-union.",
 		notDecided: []string{"winding number 0/1 of the solution (geometry of the sweep)", "orientation of outer boundaries vs holes (addLocalMinPoly side choice)", "idempotence of re-uniting a solution"},
 		rules:      []func(*Ctx){ruleEmit("C02"), ruleBuildPath("C02.buildPath"), ruleCleanCollinear("C02.clean"), ruleGrowingList("C02.grow"), ruleSplitRelabel("C02.split"), ruleSplitDedupe("C02.split.dedupe"), ruleHorzJoinRoles("C02.horz-roles")},
 	})
 	register(&propDef{
 		id: "C04",
-		explanation: "Decides structural clauses of C04: (once) AddChild is called only from recursiveCheckOwners, under the polypath==nil guard, and its node is stored in outrec.polypath, so each output record is inserted at most once; (same-pipeline) tree polygons are produced by the same cleanCollinear -> buildPath(pts, c.reverseSolution, false, &outrec.path) pipeline as the flat result and outrec.path has no other writer; (hole) IsHole() is true exactly on even non-zero levels and Level() counts .parent links; (owner) a ring split off by a horizontal join gets its owner by containment (inside the old ring: child; beside it: sibling; around it: rings swapped) and is recorded in the old ring's splits; (bounds) lazily computed OutRec.bounds are read only after checkBounds(record) succeeded; (grow) buildTree/buildPaths re-read len(outrecList) every iteration because clean-up appends records. Does NOT decide containment/nesting correctness (path1InsidePath2, owner heuristics) or innermost-parent choice.",
+		explanation: "Decides structural clauses of C04: (once) AddChild is called only from recursiveCheckOwners, under the polypath==nil guard, and its node is stored in outrec.polypath, so each output record is inserted at most once; (same-pipeline) tree polygons are produced by the same cleanCollinear -> buildPath(pts, c.reverseSolution, false, &outrec.path) pipeline as the flat result and outrec.path has no other writer; (hole) IsHole() is true exactly on even non-zero levels and Level() counts .parent links; (owner) a ring split off by a horizontal join gets its owner by containment (inside the old ring: child; beside it: sibling; around it: rings swapped) and is recorded in the old ring's splits; (bounds) lazily computed OutRec.bounds are read only after checkBounds(record) succeeded; (grow) buildTree/buildPaths re-read len(outrecList) every iteration because clean-up appends records. Also: (owner/relabel) after a swap of point lists fixOutRecPts is called for both records; (scratch) the path variable handed to buildPath is a new variable for every result path (typestate: no use after escape). Does NOT decide containment/nesting correctness (path1InsidePath2, owner heuristics) or innermost-parent choice.",
 		notDecided: []string{"containment and nesting (path1InsidePath2, checkSplitOwner, setOwner heuristics)", "innermost-parent choice", "equality of the polygon SET with the flat result when polygons split", "moveSplits appends loop indices instead of split values (deviation, not demonstrable: 120 000 random tree executions identical to a repaired copy)"},
 		rules:      []func(*Ctx){ruleEmit("C04"), ruleIsHole("C04.hole"), ruleHorzJoinOwner("C04.owner"), ruleLazyBounds("C04.bounds"), ruleGrowingList("C04.grow"), ruleLocalMaxOwner("C04.owner.max"),
 			ruleScratchLocal("C04.scratch", []string{"(clipperBase).buildTree", "(clipperBase).buildPaths"}, 2, "each result path is handed to the caller by reference; filling the same variable again overwrites (or prefixes) the pieces already handed over — visible only when a solution has two or more open pieces / polygons")},
 	})
 	register(&propDef{
 		id: "C12",
-		explanation: "Decides structural clauses of C12: (clear) in every exported Execute*, on every path, the first effect on each solution argument is a truncation / tree Clear, followed through the callees that receive it; (reset) every engine field written during an execution (computed from the code for clipperBase, ClipperOffset, RectClip64) has a re-initialisation proof: assigned by reset/prologue on every path, emptied by the epilogue that precedes every return, or a mode field assigned by every caller; the sorted-minima flag is cleared whenever the retained list grows; rectangle-clipper edge buckets are all emptied per path; (frozen-input) nothing reachable from an execution writes the retained Vertex/LocalMinima graph; (immutable) no library write can reach memory of a caller-supplied input slice. Identical state then implies identical results because the code is deterministic (C17).",
+		explanation: "Decides structural clauses of C12: (clear) in every exported Execute*, on every path, the first effect on each solution argument is a truncation / tree Clear, followed through the callees that receive it; (reset) every engine field written during an execution (computed from the code for clipperBase, ClipperOffset, RectClip64) has a re-initialisation proof: assigned by reset/prologue on every path, emptied by the epilogue that precedes every return, or a mode field assigned by every caller; the sorted-minima flag is cleared whenever the retained list grows; rectangle-clipper edge buckets are all emptied per path; (frozen-input) nothing reachable from an execution writes the retained Vertex/LocalMinima graph; (immutable) no library write can reach memory of a caller-supplied input slice. Identical state then implies identical results because the code is deterministic (C17). Also: (minima-flag) every addition to minimaList is dominated by isSortedMinimaList = false, in every declared method including those nothing in the package calls; (step) the round-join step fields are never assigned under a condition that reads one of them; (scratch) typestate of the offsetter's and the engine's scratch slices.",
 		notDecided: []string{"independence of the order in which paths were added (geometric tie-breaking)", "conditionally assigned round-join step fields are argued by hand (stepSin/stepCos/stepsPerRad)", "callbacks and scale functions supplied by the caller"},
 		rules:      []func(*Ctx){
 			ruleNoStaleGuard("C12.step", "ClipperOffset", []string{"stepSin", "stepCos", "stepsPerRad"}, 3, "the arc step depends on |delta|, the tolerance AND the sign of the group's delta; keeping it from the previous group or execution turns round joins the wrong way for an object used with deltas of both signs"),
@@ -200,8 +200,8 @@ func init() {
 	})
 	register(&propDef{
 		id: "C16",
-		explanation: "Decides structural clauses of C16: (subseq) the result is one in-order pass appending path[i] exactly when flags[i] is false, and paths with fewer than 4 points are returned unchanged; (ends) for open paths the two end cells start at MaxFloat64 and no later store refreshes a cell without idx != 0 && idx != high, for closed paths both neighbours are refreshed after every removal; (sibling) SimplifyPath64/SimplifyPaths64 equal SimplifyPathD/SimplifyPathsD modulo types and helper names; (diff) the distance reads coordinates only through same-axis differences, hence is translation invariant; (width) at |coord| <= 2^29 the integer distance has no wrapped int64 intermediate and its squared cross product is exact in sign and zero-ness (epsilon 0 removes only exactly collinear vertices). Does NOT decide the greedy removal order, 'no retained vertex within epsilon' or scale-by-2^k invariance of float rounding.",
-		notDecided: []string{"the greedy order of removals (getNext/getPrior bookkeeping)", "on return no retained vertex is within epsilon of its neighbours' line", "invariance under scaling by a power of two (float rounding)"},
+		explanation: "Decides structural clauses of C16: (subseq) the result is one in-order pass appending path[i] exactly when flags[i] is false, and paths with fewer than 4 points are returned unchanged; (ends) for open paths the two end cells start at MaxFloat64 and no later store refreshes a cell without idx != 0 && idx != high, for closed paths both neighbours are refreshed after every removal; (sibling) SimplifyPath64/SimplifyPaths64 equal SimplifyPathD/SimplifyPathsD modulo types and helper names; (diff) the distance reads coordinates only through same-axis differences, hence is translation invariant; (width) at |coord| <= 2^29 the integer distance has no wrapped int64 intermediate and its squared cross product is exact in sign and zero-ness (epsilon 0 removes only exactly collinear vertices). Also: (ring) getNext/getPrior return an index whose flag was the last one tested and found clear on every explored return path. Does NOT decide the greedy removal order, 'no retained vertex within epsilon' or scale-by-2^k invariance of float rounding.",
+		notDecided: []string{"the greedy order of removals (beyond: getNext/getPrior return a still-present index)", "on return no retained vertex is within epsilon of its neighbours' line", "invariance under scaling by a power of two (float rounding)"},
 		rules: []func(*Ctx){
 			ruleSimplify("C16"),
 			ruleUnflaggedReturn("C16.ring", []string{"getNext", "getPrior"}),
@@ -235,7 +235,7 @@ func init() {
 	})
 	register(&propDef{
 		id: "C06",
-		explanation: "Decides structural clauses of C06: (mirror) in getNextLocation, getIntersection and getLocation the Right arm is the left/right mirror image of the Left arm, Bottom of Top, and Top the diagonal image of Left — the clipper is equivariant under the rectangle's symmetries; (corner-live) no addCorner/addCornerLocation call is constant-dead; (fast) pathBounds is the bounds of the current path, disjoint paths are skipped and contained paths are returned as the input path itself; (bounds) the bounds accumulators start at the right extremes with independent per-axis updates. Does NOT decide the crossing-history logic of executeInternal nor checkEdges/tidyEdgePair.",
+		explanation: "Decides structural clauses of C06: (mirror) in getNextLocation, getIntersection and getLocation the Right arm is the left/right mirror image of the Left arm, Bottom of Top, and Top the diagonal image of Left — the clipper is equivariant under the rectangle's symmetries; (corner-live) no addCorner/addCornerLocation call is constant-dead; (fast) pathBounds is the bounds of the current path, disjoint paths are skipped and contained paths are returned as the input path itself; (bounds) the bounds accumulators start at the right extremes with independent per-axis updates. Also: (wrap) the predecessor of vertex 0 is the last vertex; (retire) tidyEdgePair reads the index of the slot it empties before relabelling the ring; (lag) checkEdges seeds its lagging edge set with the cyclic predecessor. Does NOT decide the crossing-history logic of executeInternal nor checkEdges/tidyEdgePair.",
 		notDecided: []string{"crossing-history logic of executeInternal (firstCross/startLocs bookkeeping)", "checkEdges / tidyEdgePair re-joining (tidyEdgePair tests horizontal overlap on vertical edges: only region-equivalent differences could be produced)", "1-unit rounding of intersection points"},
 		rules: []func(*Ctx){
 			ruleRectMirror("C06.mirror"),
